@@ -21,31 +21,13 @@ func NewPreviewReader(l zerolog.Logger) previewReader {
 }
 
 func (pr *previewReader) RenderPreview(r io.Reader, h meta.PreviewHeader) error {
-	img := make([]byte, h.Size)
-	offset := uint32(0)
-	maxSize := uint32(2048)
-	for {
-		maxOffset := offset + maxSize
-		if h.Size < maxOffset {
-			maxOffset = h.Size
-		}
-
-		readLength, err := r.Read(img[offset:maxOffset])
-		if err != nil {
-			if err == io.EOF {
-				break
-			}
-			pr.logError(err).
-				Uint32("offset", offset).
-				Uint32("maxOffset", maxOffset).
-				Msgf("error read preview image")
-			return err
-		}
-		if readLength == 0 {
-			break
-		}
-
-		offset += uint32(readLength)
+	// The buffer grows with the bytes actually delivered and never beyond the declared size.
+	img, err := io.ReadAll(io.LimitReader(r, int64(h.Size)))
+	if err != nil {
+		pr.logError(err).
+			Uint32("size", h.Size).
+			Msgf("error read preview image")
+		return err
 	}
 
 	pr.PreviewImage = img
